@@ -1,6 +1,8 @@
 """Per-property projections, monitors and evaluation over bundles."""
 import os, json
+import re
 import ref_builder as rb
+import ref_runtime as rr
 
 # tags compared (the projection of section 5.3 of DESIGN.md), monitor, non-triviality rule
 PROPS = {
@@ -44,6 +46,107 @@ PROPS = {
 }
 
 
+
+# ---- projections for runtime tags -------------------------------------------------------------
+def _e_sorted(v):
+    t = v.split()
+    if len(t) >= 2 and t[0] not in ('-',) and re.match(r'^[0-9.]+$', t[0]):
+        t[0] = '.'.join(sorted(t[0].split('.'), key=int))
+    return ' '.join(t)
+
+
+def _e_status(v):
+    t = v.split()
+    return t[-1] if t else v
+
+
+def _o_canon(v):
+    if v.strip() == '-':
+        return v
+    parts = [x.strip() for x in v.split('|')]
+    if len(parts) != 4:
+        return v
+    head = parts[0].split()
+    srt = lambda xs: ' '.join(sorted([x for x in xs if x != '-'], key=int)) or '-'
+    return '%s %s | %s | %s | %s' % (head[0], srt(head[1:]), parts[1], srt(parts[2].split()), parts[3])
+
+
+def _o_kind(v):
+    return v.split('|')[-1].strip() if '|' in v else v
+
+
+def _g_set(v):
+    return ' '.join(sorted(v.split()))
+
+
+EXACT = lambda v: v
+RT = dict(bundle='runtime')
+
+
+def rt(kinds, proj, monitor, rule, nontrivial, explanation, relevant=None, assumptions=None, scope=''):
+    d = dict(bundle='runtime', kinds=kinds, proj=proj, monitor=monitor, rule=rule, nontrivial=nontrivial,
+             explanation=explanation, relevant=relevant, assumptions=assumptions or [], exhaustive_scope=scope, tags=None)
+    return d
+
+
+def _has_conflict(c):
+    r = c.rcase()
+    return any(rb.conflict(r.ref.nodes[i], r.ref.nodes[j]) for i in range(r.n) for j in range(i + 1, r.n))
+
+
+def _cfg(c):
+    return rr.kvs(c.parts[1].split()) if c.kind in ('X', 'S') else {}
+
+
+RT_SCOPE = 'exh: all 30 labelled DAGs on n<=3 nodes x 4 APIs x mut x order x every completion order; every failing subset (n<=2 all orders); one interrupt at every position for 5 strategies x include flag; limits 1,2. sexh: every interleaving of poll_next / FnRef drop up to length 2n+2 on those DAGs, both orders. empty: the empty graph on every entry point'
+
+PROPS.update({
+    'C01': rt(['X', 'S'], {'G': _g_set, 'e': _e_sorted}, rr.mon_c01,
+              'runtime cases (exhaustive n<=3 schedules, random n<=8 with R/W declarations, conflict families, wide); monitor: in-flight intervals of every conflicting pair; non-trivial = the graph has a conflicting pair',
+              lambda c: _has_conflict(c), 'conflicting functions are joined by a path of the built graph (C11) and a function starts only after its predecessors ended',
+              relevant=lambda c: c.kind == 'S' or _cfg(c).get('api') in ('foreach', 'tryforeach'), scope=RT_SCOPE),
+    'C02': rt(['X', 'S'], {'e': _e_sorted}, rr.mon_c02,
+              'runtime cases, all 8 internal paths + control, both orders; monitor: End(dependency) before Start on the implementation trace; non-trivial = graph with at least one user edge',
+              lambda c: bool(c.rcase().ref.edges), 'start_after_preds invariant of the scheduler model + user edges kept by build()', scope=RT_SCOPE),
+    'C03': rt(['X', 'S'], {'e': _e_sorted, 'O': _o_canon}, rr.mon_c03,
+              'runtime cases incl. the wide family (17..300 independent functions, fan-in/out) against channel capacity; monitor: no duplicate Start, clean run = all n; non-trivial = n >= 2',
+              lambda c: c.rcase().n >= 2, 'NoDup of starts; ready channel never full; clean runs start every function exactly once', scope=RT_SCOPE),
+    'C04': rt(['X'], {'e': _e_status, 'O': _o_kind}, rr.mon_c04,
+              'call-API cases incl. the empty graph on every entry point; monitor: panic, pending-with-nothing-in-flight at any settled point, return with futures in flight; non-trivial = any case',
+              lambda c: True, 'no panic site reachable; no deadlock; returns only when all started futures completed', scope=RT_SCOPE),
+    'C05': rt(['S'], {'e': EXACT, 'Z': EXACT}, rr.mon_c05,
+              'stream cases: every interleaving of poll_next and FnRef drops (n<=3), random ones with several drops between polls, early stream drop; exact poll results and waker flag; non-trivial = at least one drop event',
+              lambda c: any(t.startswith('d') for t in c.parts[2].split()), 'pending_justified / none_iff_all on the stream machine', scope=RT_SCOPE),
+    'C06': rt(['X', 'S'], {'G': EXACT, 'e': _e_sorted}, rr.mon_c06_full,
+              'runtime cases without limit/interrupt/failure; monitor: at every idle point each function whose built-graph predecessors returned is started; added edges join conflicting functions only',
+              lambda c: c.rcase().n >= 2, 'no_idle_ready + added_edges_are_conflicts',
+              relevant=lambda c: c.kind == 'S' or (_cfg(c).get('api') in ('foreach', 'tryforeach') and _cfg(c).get('lim', '0') == '0'), scope=RT_SCOPE),
+    'C07': rt(['X'], {'e': _e_sorted, 'O': _o_canon}, rr.mon_c07,
+              'try_* cases with every non-empty failing subset (n<=2 exhaustive orders, n=3 sampled, random n<=8); monitor: errors == failed set, dependents of a failed function never start, try_fold first error',
+              lambda c: 'e ' in (c.obs.get('T', '') + ' ') and any(t.endswith('e') and t.startswith('e') for t in c.obs.get('T', '').split()),
+              'errs_exact, dependents_never_start, tryfold_first_error',
+              relevant=lambda c: _cfg(c).get('api') in ('tryforeach', 'tryfold'), scope=RT_SCOPE),
+    'C08': rt(['X', 'S'], {'e': _e_sorted, 'O': _o_canon}, rr.mon_c08,
+              'cases with an interrupt at every position (incl. before the first poll) x FinishCurrent/PollNextN 0,1,2/Ignore x include flag; monitor: number of functions started after the signal vs the bound',
+              lambda c: 'i' in [t.lstrip('+') for t in c.parts[2].split()], 'interrupt_bound (credit argument on the wrapper model)',
+              relevant=lambda c: 'i' in [t.lstrip('+') for t in c.parts[2].split()] or _cfg(c).get('strat', 'non') != 'non', scope=RT_SCOPE),
+    'C09': rt(['X'], {'e': EXACT, 'O': EXACT, 'T': EXACT}, rr.mon_c09,
+              'call-API cases, exact outcome incl. order; monitor: processed == start order, not_processed == complement, state, Continue/Break',
+              lambda c: c.rcase().n >= 2, 'outcome_exact, control_iff', scope=RT_SCOPE),
+    'C10': rt(['X'], {'e': _e_sorted}, rr.mon_c10,
+              'call-API cases with limit in {0,1,2,3,4}; monitor: max simultaneous in-flight user futures',
+              lambda c: _cfg(c).get('lim', '0') != '0' or _cfg(c).get('api') in ('fold', 'tryfold'), 'limit_respected, seq_one', scope=RT_SCOPE),
+    'C15': rt(['H'], {'*': EXACT}, rr.mon_all_single,
+              'histories of 2-4 runs (all APIs, shared and mut, streams; completed, interrupted, failed, dropped midway) on ONE graph value; every run compared with the model run from a fresh initial state; single-run monitors on each run',
+              lambda c: True, 'frame theorem: a run only reads the graph value (partial: decisive part is the differential history check)',
+              assumptions=['the borrow checker (rustc) is trusted for the &self paths']),
+    'C20': rt(['Y'], {'*': EXACT}, rr.mon_all_single,
+              'pairs of call-API runs on one graph, interleaved in one task; each compared with the single-run model and checked by the single-run monitors',
+              lambda c: True, 'independence theorem (partial, as C15)',
+              assumptions=['interleaving in one task only; runs on different OS threads are not exercised']),
+})
+
+
 class Case:
     def __init__(self, cid, meta, obs):
         self.cid = cid
@@ -53,6 +156,12 @@ class Case:
         self.line = meta['line']
         self.obs = obs
         self._b = None
+        self._r = None
+
+    def rcase(self):
+        if self._r is None:
+            self._r = rr.RCase(self.cid, self.kind, self.family, self.parts, self.line, self.obs)
+        return self._r
 
     def bcase(self):
         if self._b is None:
@@ -68,7 +177,18 @@ def run_monitor(spec, c):
         if spec['monitor'] is rb.mon_c12:
             return rb.mon_pair(c.parts[0], c.parts[1], c.obs.get('EQ'), c.obs.get('EQK'))
         return None
-    return spec['monitor'](c)
+    return spec['monitor'](c.rcase())
+
+
+def project(spec, tag, v):
+    """-> canonical value to compare, or None if the tag is outside this property's projection"""
+    if spec.get('tags') is not None:
+        return v if tag in spec['tags'] else None
+    proj = spec['proj']
+    base = re.sub(r'^(r[0-9]+\.|A\.|B\.)', '', tag)
+    base = re.sub(r'^e[0-9]+$', 'e', base)
+    f = proj.get(base) or proj.get('*')
+    return f(v) if f else None
 
 
 def evaluate_bundle(prop, spec, bdir, meta):
@@ -80,12 +200,13 @@ def evaluate_bundle(prop, spec, bdir, meta):
     if '_ERR' in mobs:
         res['error'] = (res['error'] or '') + ' model driver errors: ' + '; '.join(list(mobs['_ERR'].values())[:3])
     seen = set()
-    tags = spec['tags']
     for cid in order:
         meta_c = ic[cid]
         if meta_c['kind'] not in spec['kinds']:
             continue
         c = Case(cid, meta_c, iobs.get(cid, {}))
+        if spec.get('relevant') and not spec['relevant'](c):
+            continue
         res['evaluations'] += 1
         fam = c.family.split('-')[0]
         res['families'][fam] = res['families'].get(fam, 0) + 1
@@ -94,14 +215,16 @@ def evaluate_bundle(prop, spec, bdir, meta):
             res['mismatches'].append(dict(tag='(case)', impl='present', model='missing', case_line=c.line))
         else:
             res['compared_cases'] += 1
-            for t in tags:
+            for t in sorted(set(c.obs) | set(mo)):
                 a, b = c.obs.get(t), mo.get(t)
-                if a is None and b is None:
-                    continue
                 if t == 'P' and a is None:
                     continue   # hooks feature off
+                pa = project(spec, t, a) if a is not None else None
+                pb = project(spec, t, b) if b is not None else None
+                if pa is None and pb is None:
+                    continue
                 res['compared_obs'] += 1
-                if a != b:
+                if pa != pb:
                     if len(res['mismatches']) < 50:
                         res['mismatches'].append(dict(tag=t, impl=a, model=b, case_line=c.line))
                     else:
@@ -121,7 +244,7 @@ def evaluate_bundle(prop, spec, bdir, meta):
             if nt:
                 res['distinct_nontrivial'] += 1
                 if len(res['samples']) < 6 and (res['distinct_nontrivial'] % 997 == 1 or len(res['samples']) < 2):
-                    res['samples'].append(dict(case=c.line, observations={t: c.obs.get(t) for t in tags if t in c.obs}))
+                    res['samples'].append(dict(case=c.line, observations={t: c.obs.get(t) for t in list(c.obs)[:12]}))
     n_extra = sum(1 for m in res['mismatches'] if m is None)
     res['mismatches'] = [m for m in res['mismatches'] if m is not None]
     res['mismatches_total'] = len(res['mismatches']) + n_extra
